@@ -1,5 +1,5 @@
 import Srtla.Drv.Sys
 open Srtla.Drv
 def main : IO UInt32 := do
-  runLoop SysDrv.empty SysDrv.step (← IO.getStdin) (← IO.getStdout) SysDrv.empty
+  runLoop SysDrv.emptyD SysDrv.stepD (← IO.getStdin) (← IO.getStdout) SysDrv.emptyD
   return 0
